@@ -31,7 +31,7 @@ fn values_for(which: &str) -> Vec<(Value, Form)> {
     if which == "quick" {
         // Unicode string, "", -1, null, nested array, struct, f32, object with one member named like the key
         // ... an application-defined one-field claim and a value that reads mutable state when serialised
-        [0usize, 1, 3, 5, 9, 11, 15, 16, 18, 21].iter().map(|i| all[*i].clone()).collect()
+        [0usize, 1, 3, 5, 9, 11, 15, 16, 18, 21, 22, 23].iter().map(|i| all[*i].clone()).collect()
     } else {
         all
     }
@@ -282,7 +282,7 @@ pub fn run(tier: &str) -> i32 {
     all.impl_calls = all.executions * 2;
     all.controls_ok = *all.hist.get("sequence:conforms").unwrap_or(&0);
     let extra = json!({
-        "space": "reachable states of the GenericBuilder reference model (claim key -> last value, absent after remove) over custom keys with quotes/newline/non-BMP/Cyrillic/blank, a 22-element JSON value alphabet (Unicode string, empty, ints incl. u64::MAX, 1.5, bool, null, arrays, depth-5 object, native struct/Option/map/f32, an object whose single member is named like its claim key, a value that reads mutable state when serialised), 3 constructor forms, remove_claim, and the 7 typed registered claims; plus unmerged sequences",
+        "space": "reachable states of the GenericBuilder reference model (claim key -> last value, absent after remove) over custom keys with quotes/newline/non-BMP/Cyrillic/blank, a 24-element JSON value alphabet (Unicode string, empty, ints incl. u64::MAX, 1.5, bool, null, arrays, depth-5 object, native struct/Option/map/f32, an object whose single member is named like its claim key, a value that reads mutable state when serialised, a value whose Serialize builds and parses an inner token, members named \"\" below the top level), 3 constructor forms, remove_claim, and the 7 typed registered claims; plus unmerged sequences",
         "model_runs": model_runs,
         "unmerged_sequence_depth": depth,
         "unmerged_sequences": seq_exec,
